@@ -413,7 +413,7 @@ func wfRangeReq(o *ObjectRangeRequest) bool {
 //@ modifies bu.uploads[:], sl_has(bu.objectIndex), sl_val(bu.objectIndex), sl_len(bu.objectIndex), sl_key(bu.objectIndex)
 
 //@ func (*uploader).CompleteMultipartUpload
-//@ props C06 C09 C14
+//@ props C06 C09 C14 C08
 //@ option guard-triggers
 //@ let M = u.buckets[bucket].uploads[id]
 //@ recfun psum(t) = ite(t <= 0, 0, psum(t-1) + len(M.parts[input.Parts[t-1].PartNumber].Body))
@@ -436,7 +436,9 @@ func wfRangeReq(o *ObjectRangeRequest) bool {
 //@ loop 1 invariant  sum:    size == psum(rangeindex__1 + 1)
 //@ loop 2 invariant  idx:    -1 <= rangeindex__2 && rangeindex__2 < len(input.Parts)
 //@ loop 2 invariant  len:    len(body) == psum(rangeindex__2 + 1)
-//@ ensures [C06]     reject: imp(err != nil, unchanged() && store_gen == old(store_gen))
+//@ ensures [C06,C08] reject: imp(err != nil, unchanged() && store_gen == old(store_gen))
+// the ETag handed back is the quoted hex digest of the assembled body followed by '-<number of parts listed>'
+//@ ensures [C06]     etag:   imp(err == nil, etag == fmt.Sprintf("\"%s-%d\"", hex.EncodeToString(hs_sumres), len(input.Parts)))
 //@ ensures [C06]     absent: imp(old(!has(u.buckets, bucket) || !has(u.buckets[bucket].uploads, id)), err != nil)
 //@ ensures [C06]     order:  imp(!all(i, 0, len(input.Parts), all(j, i, len(input.Parts), input.Parts[i].PartNumber <= input.Parts[j].PartNumber)), err != nil)
 //@ ensures [C06]     listed: imp(err == nil, all(k, 0, len(input.Parts), listedOK(old(M.parts), input, k)))
@@ -1068,6 +1070,10 @@ func wfRangeReq(o *ObjectRangeRequest) bool {
 //@                               (typeis(dyn(put_input, *hashingReader).inner, *chunkedReader) && dyn(dyn(put_input, *hashingReader).inner, *chunkedReader) != nil &&
 //@                                dyn(dyn(put_input, *hashingReader).inner, *chunkedReader).inner == old(r.Body))))
 //@ ensures [C01]      once:   put_count <= old(put_count) + 1
+// C08: with the integrity check on, a Content-MD5 header that is present (under the name net/http files it under) but empty is
+// a malformed digest: the backend is never asked to store the body
+//@ ensures [C08]      nodigest: imp(g.integrityCheck && has(old(r.Header), textproto.CanonicalMIMEHeaderKey("Content-MD5")) &&
+//@                              old(r.Header).Get("Content-MD5") == "", put_count == old(put_count))
 //@ ensures [C01]      meta:   imp(put_count == old(put_count) + 1, allstr(k, imp(has(old(r.Header), k) && k != "Last-Modified" &&
 //@                              (k == "Content-Type" || k == "Content-Disposition" || k == "Content-Encoding" || strings.HasPrefix(k, "X-Amz-")),
 //@                              smhas(put_meta, k) && smval(put_meta, k) == old(r.Header)[k][0])))
